@@ -224,6 +224,96 @@ fn run_case(c: &Timing, ci: usize, kfs: &[Kf], ki: usize) -> Out {
     out
 }
 
+
+// ------------------------------------------------------------------------------------------------
+// Rotation properties: glam quaternions are supported property types (e.g. the rotation of a remote Transform
+// proxy). Finite unit quaternions in, finite values out - at every time, whatever the relation between two
+// neighbouring keyframe values (equal, opposite sign of the same rotation, orthogonal, w = 0 ...).
+
+#[derive(Animate, Clone, Debug, Default, PartialEq)]
+pub struct Rot {
+    #[animate]
+    pub q: glam::Quat,
+    #[animate]
+    pub dq: glam::DQuat,
+    #[animate]
+    pub v: glam::Vec3,
+}
+
+fn unit_quats() -> Vec<glam::Quat> {
+    use glam::Quat;
+    let h = std::f32::consts::FRAC_1_SQRT_2;
+    let mut v = vec![
+        Quat::IDENTITY,
+        Quat::from_xyzw(0.0, 0.0, 1.0, 0.0),
+        Quat::from_xyzw(0.0, 0.0, -1.0, 0.0),
+        Quat::from_xyzw(1.0, 0.0, 0.0, 0.0),
+        Quat::from_xyzw(-1.0, 0.0, 0.0, 0.0),
+        Quat::from_xyzw(0.0, 0.0, 0.0, -1.0),
+        Quat::from_xyzw(0.0, h, 0.0, h),
+        Quat::from_xyzw(0.0, -h, 0.0, -h),
+        Quat::from_xyzw(h, 0.0, h, 0.0),
+        Quat::from_xyzw(-h, 0.0, -h, 0.0),
+        Quat::from_xyzw(0.5, 0.5, 0.5, 0.5),
+        Quat::from_xyzw(-0.5, -0.5, -0.5, -0.5),
+        Quat::from_xyzw(0.5, -0.5, 0.5, -0.5),
+    ];
+    v.push(Quat::from_rotation_z(0.3));
+    v.push(Quat::from_rotation_x(2.9));
+    v
+}
+
+/// Every ordered pair of the unit quaternions as the two keyframes of a rotation property x easings
+/// Linear / InOut / OutBack x a 1/16 time grid; results pushed into the digest (debug == release).
+fn run_quats() -> Out {
+    let mut out = Out { digest: Digest::default(), problems: vec![], ops: 0 };
+    let qs = unit_quats();
+    for (i, a) in qs.iter().enumerate() {
+        for (j, b) in qs.iter().enumerate() {
+            for (ei, easing) in [Easing::Linear, Easing::InOut, Easing::OutBack].into_iter().enumerate() {
+                let (da, db) = (glam::DQuat::from_xyzw(a.x as f64, a.y as f64, a.z as f64, a.w as f64), glam::DQuat::from_xyzw(b.x as f64, b.y as f64, b.z as f64, b.w as f64));
+                let casej = |t: f32| json!({"struct": "Rot { q: Quat, dq: DQuat, v: Vec3 }", "from": format!("{a:?}"), "to": format!("{b:?}"), "easing": format!("{easing:?}"), "time": fj(t), "config_index": usize::MAX, "keyframe_set": 0});
+                out.ops += 1;
+                let built = catch_unwind(AssertUnwindSafe(|| {
+                    Rot::timeline()
+                        .duration_seconds(1.0)
+                        .default_easing(easing.clone())
+                        .keyframe(Rot::keyframe(0.0).q(*a).dq(da).v(glam::Vec3::new(a.x, a.y, a.z)))
+                        .keyframe(Rot::keyframe(1.0).q(*b).dq(db).v(glam::Vec3::new(b.x, b.y, b.z)))
+                        .build()
+                }));
+                let Ok(tl) = built else {
+                    out.problems.push(("panic:quat:build".into(), format!("building a rotation timeline from {a:?} to {b:?} panicked"), casej(0.0)));
+                    continue;
+                };
+                for k in 0..=16 {
+                    let t = k as f32 / 16.0;
+                    out.ops += 1;
+                    match catch_unwind(AssertUnwindSafe(|| { let mut r = Rot::default(); tl.update(&mut r, t); r })) {
+                        Ok(r) => {
+                            for c in [r.q.x, r.q.y, r.q.z, r.q.w, r.v.x, r.v.y, r.v.z] {
+                                out.digest.push(c.to_bits() as u64);
+                            }
+                            for c in [r.dq.x, r.dq.y, r.dq.z, r.dq.w] {
+                                out.digest.push(c.to_bits());
+                            }
+                            if !(r.q.is_finite() && r.dq.is_finite() && r.v.is_finite()) {
+                                out.problems.push((format!("non-finite:quat:{}", if i == j { "equal-keyframes" } else if (a.dot(*b) + 1.0).abs() < 1e-6 { "opposite-sign-keyframes" } else { "other" }), format!("rotation from {a:?} to {b:?} ({easing:?}) at t={t}: {:?}", r), casej(t)));
+                            }
+                        }
+                        Err(_) => {
+                            out.digest.push(0xDEAD);
+                            out.problems.push(("panic:quat:update".into(), format!("rotation from {a:?} to {b:?} ({easing:?}) panicked at t={t}"), casej(t)));
+                        }
+                    }
+                }
+                let _ = ei;
+            }
+        }
+    }
+    out
+}
+
 pub fn digest_only() {
     let cfgs = configs();
     let ks = keyframe_sets();
@@ -233,6 +323,8 @@ pub fn digest_only() {
             println!("D {ci} {ki} {:016x} {}", o.digest.0, o.problems.len());
         }
     }
+    let o = run_quats();
+    println!("D {} 0 {:016x} {}", cfgs.len(), o.digest.0, o.problems.len());
 }
 
 pub fn run(run: Run) -> ! {
@@ -262,6 +354,15 @@ pub fn run(run: Run) -> ! {
             a.digests.extend(b.digests);
         },
     );
+    // rotation properties
+    {
+        let o = run_quats();
+        acc.ops += o.ops;
+        acc.digests.push((cfgs.len(), 0, o.digest.0));
+        for (j, (sig, desc, case)) in o.problems.into_iter().enumerate() {
+            acc.sink.add(&sig, (1u64 << 40) | j as u64, || (desc, case));
+        }
+    }
     // the empty merged timeline is a valid (degenerate) configuration: its metadata must be finite
     {
         let empty: MergedTimeline<PTimeline> = MergedTimeline::of(Vec::<PTimeline>::new());
@@ -305,6 +406,10 @@ pub fn run(run: Run) -> ! {
     for (ci, ki, d) in &acc.digests {
         debug_compared += 1;
         if dmap.get(&(*ci, *ki)) != Some(d) {
+            if *ci >= cfgs.len() {
+                acc.sink.add("debug-release-differ:quat", 0, || ("rotation-property results differ between debug and release builds".into(), json!({"family": "quaternion keyframes", "operation": "all (digest)"})));
+                continue;
+            }
             let c = &cfgs[*ci];
             let repname = match c.rep {
                 Rep::Times(u32::MAX) => "Times(u32::MAX)",
@@ -323,7 +428,7 @@ pub fn run(run: Run) -> ! {
     cov.insert("traces_validated_against_impl".into(), json!(debug_compared));
     cov.insert("evaluations".into(), json!(acc.ops));
     cov.insert("distinct_nontrivial".into(), json!(items.len()));
-    cov.insert("rule".into(), json!("cycle in {MIN_POSITIVE,1e-30,1e-3,1,1e3,1e30,2e38,f32::MAX} x delay in {0,1e-30,1,1e30} x repeat in {None,Times 0,1,2^24,2^24+1,u32::MAX-1,u32::MAX,Infinite} x reverse, restricted to configurations whose total duration is <= f32::MAX (validity bound), x 13 keyframe sets (two with keyframes a subnormal distance apart: positions 0 / 1e-40 and 0 / 1.4e-45; two with extreme finite values: +-f32::MAX, +-3e38, i32::MIN..2147483520; three with 257, 513 and 300 keyframes, the last alternating between +-1e36 / +-2e9); operations: build, duration, delay, cycle_duration, repeat, start_with, update (plain and after start_with) at {0, MIN_POSITIVE, delay, every phase boundary +-0,1,2 ulp incl. the last cycles, 32 points inside the first two cycles, 1e30, f32::MAX}; the empty merged timeline (metadata finite); animator build, advance(dt) for dt in {0,2^-9,1,1e10,1e19,1e20,f32::MAX} each twice, is_ended, set_state; every operation under catch_unwind; oracle: no panic, finite values, values within the keyframe range, and identical result digests from a debug and a release build of the same harness; states = (configuration, keyframe set) cases, transitions = operations"));
+    cov.insert("rule".into(), json!("cycle in {MIN_POSITIVE,1e-30,1e-3,1,1e3,1e30,2e38,f32::MAX} x delay in {0,1e-30,1,1e30} x repeat in {None,Times 0,1,2^24,2^24+1,u32::MAX-1,u32::MAX,Infinite} x reverse, restricted to configurations whose total duration is <= f32::MAX (validity bound), x 13 keyframe sets (two with keyframes a subnormal distance apart: positions 0 / 1e-40 and 0 / 1.4e-45; two with extreme finite values: +-f32::MAX, +-3e38, i32::MIN..2147483520; three with 257, 513 and 300 keyframes, the last alternating between +-1e36 / +-2e9); operations: build, duration, delay, cycle_duration, repeat, start_with, update (plain and after start_with) at {0, MIN_POSITIVE, delay, every phase boundary +-0,1,2 ulp incl. the last cycles, 32 points inside the first two cycles, 1e30, f32::MAX}; the empty merged timeline (metadata finite); a rotation family (struct with Quat, DQuat and Vec3 properties: every ordered pair of 15 unit quaternions - equal, opposite sign, w = 0, orthogonal - as two keyframes x easings Linear/InOut/OutBack x a 1/16 time grid); animator build, advance(dt) for dt in {0,2^-9,1,1e10,1e19,1e20,f32::MAX} each twice, is_ended, set_state; every operation under catch_unwind; oracle: no panic, finite values, values within the keyframe range, and identical result digests from a debug and a release build of the same harness; states = (configuration, keyframe set) cases, transitions = operations"));
     cov.insert("exhaustive".into(), json!(true));
     cov.insert("debug_release_cases_compared".into(), json!(debug_compared));
     cov.insert("samples".into(), json!([{"timing": cfgs[cfgs.len() / 2].to_json(), "times": times(&cfgs[cfgs.len() / 2]).iter().map(|t| fj(*t)).collect::<Vec<_>>(), "advances": ADVANCES.iter().map(|t| fj(*t)).collect::<Vec<_>>()}]));
@@ -335,7 +440,7 @@ pub fn replay(case: &Value) -> bool {
     let ks = keyframe_sets();
     let ci = case["config_index"].as_u64().unwrap_or(0) as usize;
     let ki = case["keyframe_set"].as_u64().unwrap_or(0) as usize;
-    let o = run_case(&cfgs[ci], ci, &ks[ki], ki);
+    let o = if ci >= cfgs.len() { run_quats() } else { run_case(&cfgs[ci], ci, &ks[ki], ki) };
     for (s, d, _) in &o.problems {
         println!("{s}: {d}");
     }
